@@ -14,7 +14,8 @@ From Coq Require Import List Arith Bool Lia.
 From LMBase Require Import Res ListX.
 From LMStripe Require Import StripeModel NetModel GenStripeNet StripeAvx2 StripeSpec
   StripeProofs SpecProofs NetProofs Avx2Proofs HistoryProofs
-  GenSeq SeqT SeqTProofs PadModel PadProofs PadHistory PadHistoryProofs.
+  GenSeq SeqT SeqTProofs PadModel PadProofs PadHistory PadHistoryProofs
+  GenPli PliT PliTProofs.
 Import ListNotations.
 
 (* ---------- the closed form is the wording of the property ---------- *)
@@ -416,6 +417,86 @@ Theorem C04_check_pad_sound : forall K C s ob, 0 < C ->
   check_C04_pad K C s ob = true -> Holds_C04_pad K C s ob.
 Proof. intros K C s ob HC. exact (check_C04_pad_sound K C HC s ob). Qed.
 
+(* ---------- pli/mod.rs (trait Stripe, provided methods) as translated text ---------- *)
+
+(* The statement lists of Stripe::stripe and Stripe::stripe_into regenerated from pli/mod.rs
+   (GenPli.v: the two row-count formulas, capacity, reserve / resize arguments, the index
+   expressions of the symbol loop and of the fill loop, the fill range, the arguments of
+   StripedSequence::new), assembled in PliT.v, ARE the generic model functions all theorems
+   above speak about; so are the pipelines and the history step built on them. *)
+Theorem C04_pli_translated : forall K C, 0 < C ->
+  (forall s old, stripe_into_generic_t K C s old = stripe_into_generic K C s old) /\
+  (forall b s old, stripe_into_t K C b s old = stripe_into K C b s old) /\
+  (forall b s, stripe_fresh_t K C (stripe_into_t K C b) s = stripe_fresh K C (stripe_into K C b) s) /\
+  (forall st o, step2_t K C st o = step2 K C st o).
+Proof.
+  intros K C HC.
+  split; [intros s old; exact (stripe_into_generic_t_eq K C HC s old)|].
+  split; [intros b s old; exact (stripe_into_t_eq K C HC b s old)|].
+  split; [|intros st o; exact (step2_t_eq K C HC st o)].
+  intros b s. apply (stripe_fresh_t_eq K C HC). intros q st. exact (stripe_into_t_eq K C HC b q st).
+Qed.
+
+(* what the translated expressions mean: both methods compute R = ceil(L/C) rows (by two
+   different formulas), resize to R rows, reserve R + DEFAULT_EXTRA_ROWS; symbol i and fill
+   index i go to cell (i mod R, i / R); the fill runs over L .. rows()*columns(); new gets L *)
+Theorem C04_pli_expressions : forall L C rows cap dr i, 0 < C ->
+  si_rows L C default_extra_rows = seq_rows C L /\ si_rows_ok L C default_extra_rows = true /\
+  st_rows L C default_extra_rows = seq_rows C L /\
+  si_capacity L C default_extra_rows rows = rows + 32 /\ st_capacity L C default_extra_rows rows = rows + 32 /\
+  si_reserve L C default_extra_rows rows cap = cap /\ si_resize L C default_extra_rows rows cap = rows /\
+  st_mrows L C default_extra_rows rows cap = rows /\ st_mcap L C default_extra_rows rows cap = cap /\
+  (si_w_row L C default_extra_rows rows cap dr i = i mod rows /\ si_w_col L C default_extra_rows rows cap dr i = i / rows) /\
+  (si_f_lo L C default_extra_rows rows cap dr = L /\ si_f_hi L C default_extra_rows rows cap dr = dr * C) /\
+  (si_f_row L C default_extra_rows rows cap dr i = i mod rows /\ si_f_col L C default_extra_rows rows cap dr i = i / rows) /\
+  si_newlen L C default_extra_rows rows cap = L /\ st_newlen L C default_extra_rows rows cap = L.
+Proof.
+  intros L C rows cap dr i HC.
+  split; [reflexivity|]. split; [unfold si_rows_ok; apply Nat.leb_le; lia|].
+  split; [exact (rows_fresh_eq C L HC)|].
+  split; [unfold si_capacity; rewrite default_extra_rows_value; lia|].
+  split; [unfold st_capacity; rewrite default_extra_rows_value; lia|].
+  repeat split; reflexivity.
+Qed.
+
+(* (seeded/C04/5) stripe_into OVERWRITES the destination completely: whatever the reused buffer
+   held -- any matrix of C-cell rows, longer or shorter, any stale len / wrap -- the result is
+   the same, has exactly R rows and no look-ahead rows, and every cell (r, c) of them is
+   determined by the sequence alone: symbol c*R + r, or the wildcard when that is beyond the
+   end.  In particular for L < C (R = 1) and for L a multiple of R but not of C, where whole
+   columns after the end of the sequence are padding. *)
+Theorem C04_stripe_into_overwrites_everything : forall K C (b : backend) (s : list nat) (old1 old2 : sseq),
+  0 < C -> backend_typed C b = true -> wf_matrix C (mat old1) -> wf_matrix C (mat old2) ->
+  stripe_into_t K C b s old1 = stripe_into_t K C b s old2 /\
+  exists st, stripe_into_t K C b s old1 = Ok st /\
+    length (mat st) = seq_rows C (length s) /\ swrap st = 0 /\ slen st = length s /\
+    forall r c, r < seq_rows C (length s) -> c < C ->
+      nth c (nth r (mat st) []) (wild K) =
+      if c * seq_rows C (length s) + r <? length s then nth (c * seq_rows C (length s) + r) s (wild K) else wild K.
+Proof. intros K C b s old1 old2 HC. exact (stripe_into_overwrites K C HC b s old1 old2). Qed.
+
+(* ---------- Clone and the From conversions ---------- *)
+
+(* histories that also clone the buffer (derived Clone: the copy is the same logical state;
+   Vec capacity is not part of it), build it with From<EncodedSequence> (= to_striped) or
+   send it through DenseMatrix::from(striped) and StripedSequence::new: no failure, the
+   buffer holds seq_after3 with some padding *)
+Theorem C04_conversions_history : forall K C (ops : list op3) s st, 0 < C ->
+  StripedPad K C s st -> forallb (op3_ok C) ops = true ->
+  exists st', run3 K C st ops = Ok st' /\ StripedPad K C (seq_after3 K C s st ops) st'.
+Proof. intros K C ops s st HC. exact (run3_spec K C HC ops s st). Qed.
+
+(* each of them: the clone is the same state; From<EncodedSequence> gives the striped form with
+   wildcard padding and no look-ahead rows; DenseMatrix::from + new keeps the matrix and resets
+   wrap -- the identity (same state, same logical sequence) exactly when there were no
+   look-ahead rows (with look-ahead rows they become sequence rows: ex_via_matrix_with_wrap) *)
+Theorem C04_conversions_spec : forall K C s st, 0 < C -> StripedPad K C s st ->
+  step3 K C st OClone = Ok st /\
+  (forall a q, C = 32 -> exists st', step3 K C st (OFromEnc a q) = Ok st' /\ Striped K C q st' /\ swrap st' = 0) /\
+  step3 K C st OViaMatrix = Ok (mkS (mat st) (slen st) 0) /\
+  (swrap st = 0 -> step3 K C st OViaMatrix = Ok st /\ seq_after3_1 K C s st OViaMatrix = s).
+Proof. intros K C s st HC. exact (conversions_spec K C HC s st). Qed.
+
 (* ---------- statement pins ---------- *)
 
 Check C04_stripe_generic_spec : forall K C (s : list nat) (old : sseq),
@@ -450,6 +531,20 @@ Check C04_check_sound : forall K C (s : list nat) (ob : obs),
   0 < C -> check_C04 K C s ob = true -> Holds_C04 K C s ob.
 Check C04_striped_iff_placement : forall K C (s : list nat) (st : sseq),
   0 < C -> (Striped K C s st <-> Placed K C s st).
+
+Check C04_stripe_into_overwrites_everything : forall K C (b : backend) (s : list nat) (old1 old2 : sseq),
+  0 < C -> backend_typed C b = true -> wf_matrix C (mat old1) -> wf_matrix C (mat old2) ->
+  stripe_into_t K C b s old1 = stripe_into_t K C b s old2 /\
+  exists st, stripe_into_t K C b s old1 = Ok st /\
+    length (mat st) = seq_rows C (length s) /\ swrap st = 0 /\ slen st = length s /\
+    forall r c, r < seq_rows C (length s) -> c < C ->
+      nth c (nth r (mat st) []) (wild K) =
+      if c * seq_rows C (length s) + r <? length s then nth (c * seq_rows C (length s) + r) s (wild K) else wild K.
+Check C04_pli_translated : forall K C, 0 < C ->
+  (forall s old, stripe_into_generic_t K C s old = stripe_into_generic K C s old) /\
+  (forall b s old, stripe_into_t K C b s old = stripe_into K C b s old) /\
+  (forall b s, stripe_fresh_t K C (stripe_into_t K C b) s = stripe_fresh K C (stripe_into K C b) s) /\
+  (forall st o, step2_t K C st o = step2 K C st o).
 
 (* ---------- non-vacuity ---------- *)
 
@@ -576,3 +671,25 @@ Example ex_pad_history :
                       O1 (OConfigure 3); O1 (OStripeInto BGeneric [3; 3])] =
   Ok (mkS [[3; 3; 4; 4]] 2 0).
 Proof. vm_compute. reflexivity. Qed.
+
+(* ---------- reused destination (seeded/C04/5 classes), conversions: examples ---------- *)
+
+(* C = 4: L = 3 < C (R = 1) and L = 6 (R = 2, 6 mod 2 = 0, 6 mod 4 <> 0) after a longer sequence
+   without any wildcard: the columns after the end are rewritten with the wildcard 4 *)
+Example ex_reuse_overwrites :
+  stripe_into_generic_t 5 4 [0; 1; 2] (mkS [[1; 1; 1; 1]; [2; 2; 2; 2]; [3; 3; 3; 3]] 12 1) = Ok (mkS [[0; 1; 2; 4]] 3 0) /\
+  stripe_into_generic_t 5 4 [0; 1; 2; 3; 0; 1] (mkS [[1; 1; 1; 1]; [2; 2; 2; 2]; [3; 3; 3; 3]] 12 0) =
+    Ok (mkS [[0; 2; 0; 4]; [1; 3; 1; 4]] 6 0) /\
+  stripe_fresh_t 5 4 (stripe_into_t 5 4 BGeneric) [0; 1; 2; 3; 0; 1] = Ok ex_st.
+Proof. vm_compute. repeat split; reflexivity. Qed.
+
+(* DenseMatrix::from + new on a buffer WITH a look-ahead row: the three rows are now all
+   sequence rows, the logical sequence is re-read column by column over 3 rows *)
+Example ex_via_matrix_with_wrap :
+  run3 5 4 s_default [O2 (O1 (OStripeInto BGeneric ex_s)); OClone; O2 (O1 (OConfigureWrap 1)); OViaMatrix] =
+    Ok (mkS [[0; 2; 0; 4]; [1; 3; 1; 4]; [2; 0; 4; 4]] 6 0) /\
+  seq_after3 5 4 [] s_default [O2 (O1 (OStripeInto BGeneric ex_s)); OClone; O2 (O1 (OConfigureWrap 1)); OViaMatrix] =
+    [0; 1; 2; 2; 3; 0] /\
+  forallb (op3_ok 4) [O2 (O1 (OStripeInto BGeneric ex_s)); OClone; O2 (O1 (OConfigureWrap 1)); OViaMatrix] = true /\
+  op3_ok 4 (OFromEnc AAvx2 ex_s) = false /\ op3_ok 32 (OFromEnc AAvx2 ex_s) = true.
+Proof. vm_compute. repeat split; reflexivity. Qed.
